@@ -27,7 +27,10 @@ FIXTURES = [
 
 GEN_CELL_CAP = 3500
 
-NAME_POOL = ["Data", "data", "Summary", "Σ", "Table 1", "Table 2", "table 3", "Sheet 2", "Ünïcode", "A", "", "x y", "tab\tname", "名前"]
+# includes pairs that differ only by Unicode normalisation form (different strings, hence different names),
+# by trailing/inner white space, and by case
+NAME_POOL = ["Data", "data", "Summary", "Σ", "Table 1", "Table 2", "table 3", "Sheet 2", "Ünïcode", "A", "", "x y", "tab\tname", "名前",
+             "Caf\u00e9", "Cafe\u0301", "\u00c5", "\u212b", "A\u030a", "Data ", " Data", "x  y", "\u1e9e", "SS"]
 
 
 def pick_shape(rng, cls=None):
